@@ -140,6 +140,48 @@ def poisons():
     fld("f-malformed-no-value", lambda x: [("malformed", "map =")])
     fld("f-malformed-trailing", lambda x: [("malformed", 'rename = "a" "b"')], lambda x: not x.has("rename"))
 
+    # "sandwiches": the same single-valued attribute twice with ANOTHER valid attribute between the two
+    # occurrences (within one #[deserr(..)] or across three), in this order
+    def ordered(level, cause, mk, pick, need=None):
+        def f(it, spread, rng):
+            it = copy.deepcopy(it)
+            tgt = pick(it, rng, need)
+            if tgt is None:
+                return None
+            attrs = mk(tgt)
+            if spread:
+                tgt.attrs = [list(g) for g in tgt.attrs] + [[a] for a in attrs]
+            else:
+                tgt.attrs = [list(g) for g in tgt.attrs] + [list(attrs)]
+            return it
+        P.append((cause, level, f))
+    pick_item = lambda it, rng, need: it if (need is None or need(it)) else None
+    def pick_variant(it, rng, need):
+        if it.kind != "enum":
+            return None
+        vs = [v for v in it.variants if (need is None or need(v))]
+        return rng.choice(vs) if vs else None
+    def pick_field(it, rng, need):
+        fs = [x for x in it.all_fields() if (need is None or need(x))]
+        return rng.choice(fs) if fs else None
+    ordered("container", "c-rename_all-sandwich", lambda it: [("rename_all", "camelCase"), ("validate", 950), ("rename_all", "lowercase")], pick_item,
+            lambda it: not it.get("rename_all"))
+    ordered("container", "c-deny-sandwich", lambda it: [("deny", None), ("error", 0), ("deny", None)], pick_item, lambda it: not (it.get("deny") or it.get("error")))
+    ordered("container", "c-validate-sandwich", lambda it: [("validate", 951), ("deny", None), ("validate", 952)], pick_item, lambda it: not it.get("deny"))
+    ordered("container", "c-tag-sandwich", lambda it: [("tag", "t1"), ("validate", 953), ("tag", "t2")], pick_item, lambda it: it.kind == "enum" and not it.get("tag"))
+    ordered("variant", "v-rename_all-sandwich", lambda v: [("rename_all", "camelCase"), ("rename", "sw1"), ("rename_all", "lowercase")], pick_variant,
+            lambda v: not (vhas(v, "rename") or vhas(v, "rename_all")))
+    ordered("variant", "v-rename-sandwich", lambda v: [("rename", "sw2"), ("rename_all", "camelCase"), ("rename", "sw3")], pick_variant,
+            lambda v: not (vhas(v, "rename") or vhas(v, "rename_all")))
+    ordered("field", "f-rename-sandwich", lambda x: [("rename", "sw4"), ("missing", 954), ("rename", "sw5")], pick_field,
+            lambda x: not (x.has("rename") or x.has("missing") or x.skipped()))
+    ordered("field", "f-default-sandwich", lambda x: [("default", None), ("rename", "sw6"), ("default", None)], pick_field,
+            lambda x: not (x.has("rename") or x.has("default") or x.skipped()))
+    ordered("field", "f-map-sandwich", lambda x: [("map", 955, x.ty), ("error", 0), ("map", 956, x.ty)], pick_field, lambda x: not (x.has("map") or x.has("error")))
+    ordered("field", "f-from-sandwich", lambda x: [("from", x.ty, 957, False), ("rename", "sw7"), ("from", x.ty, 958, False)], pick_field,
+            lambda x: not (x.has("rename") or x.has("from") or x.has("try_from") or x.skipped()))
+    ordered("field", "f-missing-sandwich", lambda x: [("missing", 959), ("error", 0), ("missing", 960)], pick_field, lambda x: not (x.has("missing") or x.has("error")))
+
     def shape(cause, kind):
         def f(it, spread, rng):
             if it.kind != "struct":
